@@ -51,7 +51,7 @@ Same(s, e) ==
                  [j \in 1..Len(lg) |-> <<Name(s, lg[j][1]), Name(s, lg[j][2]), lg[j][3]>>]]
   /\ e.status = [t \in 1..TNT |-> StatusOf(s, t)]
   /\ Range(e.staged) = {<<k[1], BrIx(k[2]), s.commits[s.staged[k]].tbl>> : k \in DOMAIN s.staged}
-  /\ e.ncommits = Len(s.commits)
+  /\ e.ncommits = NCommits(s.commits)
 
 Quiet == UNCHANGED <<run, budget>>
 
